@@ -6,7 +6,12 @@
      (entjson to_json rval)               -> (ok json) | (err E)
      (entjson ctx_to_json ((key rval)..)) -> (ok json) | (err E)
      (entjson parse none|(some sty) json) -> (ok rval) | (err E)
-     (entjson ctx_parse none|(some sty) json) -> (ok ((key rval) ...)) | (err E) *)
+     (entjson ctx_parse none|(some sty) json) -> (ok ((key rval) ...)) | (err E)
+     (entjson ctx_to_json_fixed ((key rval)..)) -> the serialiser with the proposed repair
+     (entjson ent_to_json ENT)            -> (ok json) | (err E)
+     (entjson ent_parse SCHEMA json)      -> (ok ENT) | (err E)
+     (entjson store_to_json (ENT ...))    -> (ok json) | (err E)
+     (entjson store_parse SCHEMA (ACTION-ENT ...) json) -> (ok (ENT ...)) | (err E) *)
 From Coq Require Import String.
 From Cedar Require Export Sexp EntJson.
 Open Scope string_scope.
@@ -156,6 +161,59 @@ Definition d_oty (s : sexp) : option (option sty) :=
   | _ => None
   end.
 
+(* entity : (ent TY ID ((key rval) ...) ((key rval) ...) ((TY ID) ...))
+   schema : none | (some ((TY ((key sty req) ...) open none|(some sty)) ...)) *)
+Definition d_juid2 (s : sexp) : option juid :=
+  match s with SL [SS t; SS i] => Some (mkJuid t i) | _ => None end.
+Definition e_juid2 (u : juid) : sexp := SL [SS (jty u); SS (jid u)].
+
+Definition d_entity (s : sexp) : option jentity :=
+  match s with
+  | SL [SY "ent"; SS t; SS i; a; g; anc] =>
+      match d_pairs a, d_pairs g, d_list d_juid2 anc with
+      | Some a, Some g, Some anc => Some (mkJentity (mkJuid t i) a g anc)
+      | _, _, _ => None
+      end
+  | _ => None
+  end.
+Definition e_entity (e : jentity) : sexp :=
+  SL [SY "ent"; SS (jty (je_uid e)); SS (jid (je_uid e)); e_pairs (je_attrs e); e_pairs (je_tags e);
+      SL (map e_juid2 (je_anc e))].
+
+Definition d_einfo (s : sexp) : option (str * einfo) :=
+  match s with
+  | SL [SS t; attrs; o; tags] =>
+      match d_sty (SL [SY "record"; attrs; o]), d_oty tags with
+      | Some (STRecord a o), Some tg => Some (t, mkEinfo a o tg)
+      | _, _ => None
+      end
+  | _ => None
+  end.
+Definition d_eschema (s : sexp) : option (option eschema) :=
+  match s with
+  | SY "none" => Some None
+  | SL [SY "some"; l] => option_map Some (d_list d_einfo l)
+  | _ => None
+  end.
+
+Definition e_eerr (e : eerr) : sexp :=
+  match e with
+  | EJ e => e_jerr e
+  | EUnexpectedEntityType => SY "UnexpectedEntityType"
+  | EUnexpectedEntityAttr => SY "UnexpectedEntityAttr"
+  | EUnexpectedEntityTag => SY "UnexpectedEntityTag"
+  | EActionParent => SY "ActionParentIsNotAction"
+  end.
+Definition e_er {A} (f : A -> sexp) (r : er A) : sexp :=
+  match r with EOk a => SL [SY "ok"; f a] | EErr e => SL [SY "err"; e_eerr e] end.
+Definition e_sr {A} (f : A -> sexp) (r : sr A) : sexp :=
+  match r with
+  | SOk a => SL [SY "ok"; f a]
+  | SErr (SE e) => SL [SY "err"; e_eerr e]
+  | SErr SDuplicate => SL [SY "err"; SY "Duplicate"]
+  | SErr SCycle => SL [SY "err"; SY "TransitiveClosure"]
+  end.
+
 Definition run_entjson (cmd : string) (args : list sexp) : option sexp :=
   if negb (sym_eqb cmd "entjson") then None else
   Some (match args with
@@ -167,6 +225,22 @@ Definition run_entjson (cmd : string) (args : list sexp) : option sexp :=
             match d_oty t, d_json j with
             | Some t, Some j => e_jr e_rval (json_to_value t j)
             | _, _ => bad_input
+            end
+        | [SY "ctx_to_json_fixed"; ps] =>
+            match d_pairs ps with Some l => e_jr e_json (context_to_json_fixed l) | None => bad_input end
+        | [SY "ent_to_json"; e] =>
+            match d_entity e with Some e => e_jr e_json (entity_to_json e) | None => bad_input end
+        | [SY "ent_parse"; sch; j] =>
+            match d_eschema sch, d_json j with
+            | Some sch, Some j => e_er e_entity (entity_from_json sch j)
+            | _, _ => bad_input
+            end
+        | [SY "store_to_json"; es] =>
+            match d_list d_entity es with Some es => e_jr e_json (store_to_json es) | None => bad_input end
+        | [SY "store_parse"; sch; acts; j] =>
+            match d_eschema sch, d_list d_entity acts, d_json j with
+            | Some sch, Some acts, Some j => e_sr (e_list e_entity) (store_from_json sch acts j)
+            | _, _, _ => bad_input
             end
         | [SY "ctx_parse"; t; j] =>
             match d_oty t, d_json j with
